@@ -467,7 +467,24 @@ func c13SwapGuard(c *Ctx) {
 				okSrc = ParamN(3)(st.Val)
 			case FieldAddrOf("consumerPair.DstMemberID")(st.Addr):
 				// the old owner: the parameter, or the source of the partition's recorded movement
-				okDst = !ParamN(3)(st.Val) && (ParamN(2)(st.Val) || phiHasEdge(st.Val, ParamN(2)))
+				// — i.e. a merge of both: the bare parameter alone is the CURRENT owner, which for a partition that
+				// already moved in this plan is not where it started
+				isSrcOfRecorded := func(v ssa.Value) bool {
+					switch x := strip(v).(type) {
+					case *ssa.Field:
+						if st, ok := x.X.Type().Underlying().(*types.Struct); ok {
+							return st.Field(x.Field).Name() == "SrcMemberID"
+						}
+					case *ssa.UnOp:
+						if fa, ok := x.X.(*ssa.FieldAddr); ok {
+							if _, n, _, ok := ownerField(fa); ok {
+								return n == "SrcMemberID"
+							}
+						}
+					}
+					return false
+				}
+				okDst = !ParamN(3)(st.Val) && phiHasEdge(st.Val, ParamN(2)) && phiHasEdge(st.Val, isSrcOfRecorded)
 			}
 		})
 		c.Check(pairCell != nil && okSrc && okDst, rule, fn, "reverse-pair", nil, "the pair looked up is {Src: newConsumer, Dst: old owner}", "the pair looked up in the movement record is not the reverse of the move being made: a swap A→B / B→A within a topic is not detected", nil)
@@ -484,7 +501,12 @@ func c13SwapGuard(c *Ctx) {
 					if ex, ok := e.(*ssa.Extract); ok {
 						if nx, ok := ex.Tuple.(*ssa.Next); ok {
 							if rg, ok := nx.Iter.(*ssa.Range); ok {
-								if lk, ok := strip(rg.X).(*ssa.Lookup); ok && pairCell != nil && canon(lk.Index) == ssa.Value(pairCell) {
+								x := strip(rg.X)
+								// the record looked up with the comma-ok form and ranged afterwards
+								if ex2, isEx := x.(*ssa.Extract); isEx && ex2.Index == 0 {
+									x = strip(ex2.Tuple)
+								}
+								if lk, ok := x.(*ssa.Lookup); ok && pairCell != nil && canon(lk.Index) == ssa.Value(pairCell) {
 									okRet = true
 								}
 							}
